@@ -26,7 +26,8 @@ ASSUMPTIONS = ["a data column named like a transform (e.g. `C`, `log`) shadows i
                "Formula.required_variables by design and are excluded from the necessity oracle"]
 
 FORMULAS = ["a + b", "y ~ a:b", "`x y` + a", "log(a) + b", "np.exp(a) + C(A)", "I(a + b) + c", "scale(a) : A", "a + `z-1`:b", "center(a) + poly(b, 2)",
-            "f(a) + b", "g(a, k) + A", "a ** 2 + b", "C(A, contr.sum) + a", "log(`x y`) + b", "y + b ~ a", "a + I(m.n)", "h(b)[0] + a", "a:k"]
+            "f(a) + b", "g(a, k) + A", "a ** 2 + b", "C(A, contr.sum) + a", "log(`x y`) + b", "y + b ~ a", "a + I(m.n)", "h(b)[0] + a", "a:k",
+            "g(a, w=b) + c", "np.clip(a, a_min=b, a_max=c)", "y ~ g(v=a, w=c):b", "f(v=`x y`) + a"]
 
 
 def _resolution_stream(ctx: Ctx):
@@ -67,7 +68,22 @@ def _dot_stream(ctx: Ctx):
     for i in range(ctx.n(250, 4000)):
         avail = rng.sample(cols, rng.randint(1, len(cols)))
         lhs = rng.sample(cols, rng.randint(0, 2))
-        s = (" + ".join(lhs) + " ~ " if lhs else "") + rng.choice([".", ". - a", ". + a:b", "(.)^2", ". : b", "a + ."])
+        lhs_text = list(lhs)
+        # variables may be used on the left through Python code, {} blocks and quoted names, not only as bare names
+        for k, v in enumerate(lhs):
+            r = rng.random()
+            if r < 0.15:
+                lhs_text[k] = f"log({v})"
+            elif r < 0.25:
+                lhs_text[k] = "{" + v + " + 1}"
+            elif r < 0.35:
+                lhs_text[k] = f"`{v}`"
+            elif r < 0.42:
+                w = rng.choice(cols)
+                lhs_text[k] = f"I({v}*{w})"
+                if w not in lhs:
+                    lhs = lhs + [w]
+        s = (" + ".join(lhs_text) + " ~ " if lhs_text else "") + rng.choice([".", ". - a", ". + a:b", "(.)^2", ". : b", "a + ."])
         out, kind, res = G.run_impl(s, True, (True, True, False), avail)
         lits.append(G.case_literal(s, True, (True, True, False), avail, out))
         descr.append({"formula": s, "available": avail})
@@ -150,6 +166,44 @@ def _required_oracle(ctx: Ctx):
             ctx.sample({"formula": f, "required": sorted(req)})
 
 
+def _shadow_oracle(ctx: Ctx):
+    """the materializer's own stacking: a data column shadows a context value shadows a built-in transform of the same name"""
+    import numpy as np
+    import pandas as pd
+    from formulaic import model_matrix
+    rng = ctx.fork("shadow")
+    for i in range(ctx.n(30, 300)):
+        n = 5
+        a = [float(rng.randint(-5, 9)) for _ in range(n)]
+        df = pd.DataFrame({"a": a, "b": [float(rng.randint(1, 9)) for _ in range(n)]})
+        name = rng.choice(["center", "scale", "log", "exp10", "poly"])
+        mark = float(rng.randint(50, 90))
+        out = rng.choice(["pandas", "numpy", "sparse"])
+        rp = {"kind": "shadow", "name": name, "a": a}
+        ctx.oracle_runs += 1
+        try:
+            # context function named like a transform
+            mm = model_matrix(f"0 + {name}(a)", df, context={name: (lambda v, _m=mark: np.asarray(v, dtype=float) * 0 + _m)}, output=out)
+            col = np.asarray(mm.toarray() if out == "sparse" else mm, dtype=float)[:, 0].tolist()
+            if col != [mark] * n:
+                ctx.fail(f"a context function named {name!r} does not shadow the built-in transform: column {col}", rp)
+            src = {str(v): s_ for s_, vs in mm.model_spec.variables_by_source.items() for v in vs}
+            if src.get(name) != "context":
+                ctx.fail(f"the source of {name!r} is reported as {src.get(name)!r}; the context supplied it", rp)
+            # a data column named like a transform / a context value
+            df2 = df.assign(**{name: [mark + k for k in range(n)]})
+            mm2 = model_matrix(f"0 + {name}", df2, context={name: 1.0}, output=out)
+            col2 = np.asarray(mm2.toarray() if out == "sparse" else mm2, dtype=float)[:, 0].tolist()
+            if col2 != [mark + k for k in range(n)]:
+                ctx.fail(f"a data column named {name!r} does not shadow the context value / transform of that name: column {col2}", rp)
+            src2 = {str(v): s_ for s_, vs in mm2.model_spec.variables_by_source.items() for v in vs}
+            if src2.get(name) != "data":
+                ctx.fail(f"the source of column {name!r} is reported as {src2.get(name)!r}; the data supplied it", rp)
+        except Exception as e:
+            ctx.fail(f"shadowing {name!r}: {type(e).__name__}: {e}", rp)
+        ctx.count("shadow", name)
+
+
 def _missing_stream(ctx: Ctx):
     """build model: a missing looked-up name is the factor-evaluation error"""
     rng = ctx.fork("missing")
@@ -169,6 +223,7 @@ def run(ctx: Ctx):
     _dot_stream(ctx)
     _missing_stream(ctx)
     _required_oracle(ctx)
+    _shadow_oracle(ctx)
 
 
 def search(ctx: Ctx):
